@@ -246,15 +246,17 @@ class Gen:
         self.sent = sentinels
         self.foot = {}
         self.heads = set()
+        self.prefix = 'w'
         self.f = features or set(['emph', 'strong', 'code', 'link', 'image', 'esc', 'entity', 'break', 'quote', 'list', 'codeblock', 'rule',
                                   'heading', 'table', 'deflist', 'footnote', 'math', 'supsub', 'autolink'])
 
-    def word(self):
+    def word(self, prefix=None):
+        """prefix: w body text, u attribute-like text (urls, titles, alt, captions), f note text, h heading text, c verbatim"""
         self.n += 1
-        return ('w%d' % self.n) if self.sent else self.r.choice(WORDS)
+        return ('%s%d' % (prefix or self.prefix, self.n)) if self.sent else self.r.choice(WORDS)
 
-    def words(self, lo=1, hi=5):
-        return ' '.join(self.word() for _ in range(self.r.randint(lo, hi)))
+    def words(self, lo=1, hi=5, prefix=None):
+        return ' '.join(self.word(prefix) for _ in range(self.r.randint(lo, hi)))
 
     def inlines(self, depth=0, maxn=4, allow=None):
         r = self.r
@@ -268,25 +270,25 @@ class Gen:
             elif k < 0.28 and 'strong' in allow and depth < 2:
                 node = Strong([Text(self.words(1, 3))])
             elif k < 0.38 and 'code' in allow:
-                node = Code(self.words(1, 2) + r.choice(['', ' <b>', ' & x', ' *y*', ' a_b']))
+                node = Code(self.words(1, 2, 'c') + r.choice(['', ' <b>', ' & x', ' *y*', ' a_b']))
             elif k < 0.5 and 'link' in allow and depth == 0:
-                node = Link([Text(self.words(1, 2))], 'http://example.com/%s' % self.word(), r.choice([None, None, 'Title ' + self.word()]))
+                node = Link([Text(self.words(1, 2))], 'http://example.com/%s' % self.word('u'), r.choice([None, None, 'Title ' + self.word('u')]))
             elif k < 0.56 and 'image' in allow and depth == 0:
-                node = Image(self.words(1, 2), '%s.png' % self.word(), r.choice([None, 'T ' + self.word()]))
+                node = Image(self.words(1, 2, 'u'), '%s.png' % self.word('u'), r.choice([None, 'T ' + self.word('u')]))
             elif k < 0.62 and 'esc' in allow:
                 node = Esc(r.choice('\\`*_{}[]()#+-.!>'))
             elif k < 0.66 and 'entity' in allow:
                 node = Entity(r.choice(['amp', 'lt', 'gt', 'copy', '#169', '#xA9', 'quot']))
             elif k < 0.70 and 'footnote' in allow and depth == 0:
                 ident = 'fn%d' % (len(self.foot) + 1)
-                self.foot[ident] = [Text(self.words(2, 5))]
+                self.foot[ident] = [Text(self.words(2, 5, 'f'))]
                 node = FootRef(ident)
             elif k < 0.74 and 'math' in allow:
                 node = Math(r.choice(['x^2', 'a_b + c', '\\frac{1}{2}', 'e = mc^2', 'a < b']))
             elif k < 0.78 and 'supsub' in allow:
                 node = r.choice([Sup, Sub])(self.word())
             elif k < 0.81 and 'autolink' in allow:
-                node = AutoLink('http://example.org/%s' % self.word())
+                node = AutoLink('http://example.org/%s' % self.word('u'))
             elif k < 0.84 and 'break' in allow and depth == 0:
                 out.append(Break())
                 out.append(Text(self.words()))
@@ -298,7 +300,7 @@ class Gen:
         return out
 
     def heading(self):
-        t = [Text(self.words(1, 3))]
+        t = [Text(self.words(1, 3, 'h'))]
         return Heading(self.r.randint(1, 6), t)
 
     def block(self, depth=0):
@@ -312,9 +314,10 @@ class Gen:
         if k < 0.46 and 'rule' in f:
             return Rule()
         if k < 0.56 and 'codeblock' in f:
-            lines = [r.choice(['code %s();' % self.word(), '  <tag attr="%s">' % self.word(), 'x = a & b;', '*not emph* %s' % self.word(), '# not heading'])
-                     for _ in range(r.randint(1, 3))]
             fenced = r.random() < 0.6 or depth > 0
+            # an indented block right after a list is a continuation paragraph there: keep raw-looking tags inside fences only
+            pool = ['code %s();' % self.word('c'), 'x = a & b;', '*not emph* %s' % self.word('c'), '# not heading'] + (['  <tag attr="%s">' % self.word('c')] if fenced else [])
+            lines = [r.choice(pool) for _ in range(r.randint(1, 3))]
             return CodeBlock(lines, r.choice([None, None, 'c', 'python']) if fenced else None, fenced)
         if k < 0.66 and 'quote' in f:
             return Quote([self.block(depth + 1) for _ in range(r.randint(1, 2))])
@@ -334,7 +337,7 @@ class Gen:
             nc = r.randint(1, 4)
             return Table([self.inlines(1, 1, {'emph', 'code'}) for _ in range(nc)], [r.choice('lrcn') for _ in range(nc)],
                          [[self.inlines(1, 1, {'emph', 'strong', 'code'}) for _ in range(nc)] for _ in range(r.randint(1, 3))],
-                         r.choice([None, None, 'Caption ' + self.word()]))
+                         r.choice([None, None, 'Caption ' + self.word('u')]))
         if k < 0.95 and 'deflist' in f and depth == 0:
             return DefList([([Text(self.words(1, 2))], [self.inlines(1, 1) for _ in range(r.randint(1, 2))]) for _ in range(r.randint(1, 2))])
         return Para(self.inlines())
@@ -344,7 +347,7 @@ class Gen:
         blocks = [self.block() for _ in range(n)]
         m = []
         if meta:
-            m = [('Title', 'T ' + self.word())] + ([('Author', 'A ' + self.word())] if self.r.random() < 0.5 else [])
+            m = [('Title', 'T ' + self.word('u'))] + ([('Author', 'A ' + self.word('u'))] if self.r.random() < 0.5 else [])
         return Doc(blocks, dict(self.foot), m)
 
 
